@@ -580,7 +580,11 @@ func (w *World) loadSpecFile(path, pkg string) error {
 			cur = nil
 		case "ghost":
 			fs := strings.Fields(rest)
-			if len(fs) == 3 && fs[0] == "var" {
+			if len(fs) == 3 && fs[0] == "scratch" {
+				// bookkeeping ghost state private to a proof: exempt from frame checks
+				w.ghostVars[fs[1]] = fs[2]
+				w.scratch["G_"+fs[1]] = true
+			} else if len(fs) == 3 && fs[0] == "var" {
 				w.ghostVars[fs[1]] = fs[2] // spec type; resolved later
 			} else if len(fs) == 3 && fs[0] == "field" {
 				// ghost field Type.name type
